@@ -611,6 +611,94 @@ def graph_case(rng, names, npts=None, kind=None, form=None):
     return c
 
 
+def coord_value(rng, ax):
+    """a coordinate near the edges of an axis: an edge, a midpoint, just outside, far outside"""
+    vals = [q(x) for x in ax]
+    k = rng.randrange(len(vals))
+    r = rng.random()
+    if r < 0.3:
+        return vals[k]
+    if r < 0.6 and k + 1 < len(vals):
+        return (vals[k] + vals[k + 1]) / 2
+    if r < 0.75:
+        return vals[0] - F(rng.randint(1, 8), 4)
+    if r < 0.9:
+        return vals[-1] + F(rng.randint(0, 8), 4)
+    return vals[k] + F(rng.randint(-3, 3), 8)
+
+
+def iter_coord_case(rng, shape):
+    hc = gen_hist(rng, shape)
+    axes = axes_of(hc)
+    r = rng.random()
+    if len(shape) == 1 and r < 0.3:
+        coord = {"single": [enc(coord_value(rng, axes[0])), enc(coord_value(rng, axes[0]))]}
+    else:
+        n = len(shape)
+        if r > 0.92:
+            n = rng.choice([max(1, n - 1), n + 1])
+        if r > 0.985:
+            n = 0
+        coord = {"many": [[enc(coord_value(rng, axes[min(k, len(axes) - 1)])), enc(coord_value(rng, axes[min(k, len(axes) - 1)]))]
+                          for k in range(n)]}
+    c = {"op": "iter_coord", "h": hc, "coord": coord, "ranges_given": rng.random() < 0.05}
+    if rng.random() < 0.5:
+        # ordered ranges are the interesting ones
+        for pr in coord.get("many", [coord.get("single")] if "single" in coord else []):
+            if q(pr[0]) > q(pr[1]):
+                pr[0], pr[1] = pr[1], pr[0]
+    return c
+
+
+def bin_index_case(rng, shape):
+    hc = gen_hist(rng, shape)
+    dim = len(shape)
+    r = rng.random()
+    idx = [rng.randint(0, n if rng.random() < 0.15 else n - 1) for n in shape]
+    if r < 0.2:
+        index = idx[0]
+    elif r < 0.3:
+        index = idx[:max(0, dim - 1)]
+    elif r < 0.35:
+        index = idx + [0]
+    else:
+        index = idx
+    return {"op": rng.choice(["bin_edges", "bin_on_index"]), "h": hc, "index": index}
+
+
+TEXT_VALUES = ["1/3", "2/3", "-1/3", "1/7", "22/7", "1/128", "3/128", "5/128", "-7/128", "1/2000000", "3/2000000",
+               "-1/1000000000", "123456789/1000", "999999/1000000", "9999995/10000000", "1/10", "7/10", "-5/2"]
+
+
+def csv_text_case(rng, shape):
+    c = csv_case(rng, shape)
+    c["op"] = "csv_text"
+    hc = c["h"]
+    if rng.random() < 0.7:
+        # arbitrary floats: the exact value of the float nearest to a "difficult" number
+        def val(_):
+            r = rng.random()
+            if r < 0.5:
+                return enc(float(q(rng.choice(TEXT_VALUES))))
+            if r < 0.8:
+                return enc(rng.uniform(-50, 50))
+            return enc(F(rng.randint(-300, 300), 128))
+        hc["bins"] = map_nested(val, hc["bins"])
+        hc["kind"] = "float"
+    return c
+
+
+def h2g_el_case(rng, shape):
+    c = h2g_case(rng, shape)
+    c["op"] = "h2g_el"
+    if rng.random() < 0.08:
+        c["mv"] = "notvar"
+    c["is_hist"] = rng.random() > 0.1
+    c["to_graph"] = rng.random() > 0.15
+    c["ctx"] = rng.random() < 0.8
+    return c
+
+
 def graph_add_case(rng):
     dim = rng.randint(1, 3)
     coords_names = COORD_NAMES[:dim]
@@ -633,6 +721,8 @@ def graph_add_case(rng):
                     b["coords"][k] = (c + ["7/1"])[:nb] if nb > n else c[:nb]
             if dim > 1:
                 return graph_add_case(rng)      # cannot keep the asserted lengths and a valid graph
+    if rng.random() < 0.08:
+        b = rng.choice(["other", {"hist": gen_hist(rng, (2,))}])
     return {"op": "graph_add", "a": a, "b": b}
 
 
@@ -697,7 +787,7 @@ def scale_to_case(rng):
     else:
         target = "graph"
     return {"op": "scale_to", "group": group, "target": target, "az": rng.random() < 0.4, "au": rng.random() < 0.4,
-            "via": rng.choice(["scale_to", "GroupScale"]), "ctx": rng.random() < 0.7}
+            "via": rng.choice(["scale_to", "GroupScale"]), "ctx": rng.random() < 0.7, "seq": rng.random() > 0.06}
 
 
 def scale_to_call_case(rng):
@@ -729,40 +819,96 @@ def mk_hist_case(rng):
     return c
 
 
+def _bad_graph_case(rng):
+    # wrong number of names, unequal lengths, no coords
+    c = graph_case(rng, rng.choice([["x", "y"], ["x", "y", "error_y"]]))
+    r = rng.random()
+    if r < 0.3:
+        c["g"]["coords"] = c["g"]["coords"][:-1]
+    elif r < 0.6:
+        c["g"]["coords"][-1] = c["g"]["coords"][-1] + ["1/1"]
+    elif r < 0.8:
+        c["g"]["coords"] = []
+    else:
+        c["g"]["names"] = None
+    return c
+
+
+def _csv_graph_case(rng):
+    g = graph_case(rng, rng.choice(all_namings_cached()))["g"]
+    return {"op": "csv_graph", "g": g, "to_csv": rng.random() > 0.1, "header": rng.choice([None, "", "a b"]),
+            "sep": rng.choice([",", ";", " "]), "row_end": rng.choice(["", " \\\\"]),
+            "last_row_end": rng.choice(["", "\n"])}
+
+
+def _csv_text_case(rng):
+    shape = rng.choice(SHAPES[:13] + SHAPES[:13] + SHAPES)
+    c = csv_text_case(rng, shape)
+    if rng.random() < 0.03:
+        c["data"] = "other"
+    if rng.random() < 0.04 and len(shape) == 1:
+        c["h"]["bins"] = [[v, v] for v in c["h"]["bins"]]       # bins that are lists: LenaTypeError
+        c["lists"] = True
+    return c
+
+
+def _rshape(rng):
+    return rng.choice(SHAPES)
+
+
+#: the random mixture: (weight, case maker)
+MIXTURE = [
+    (6, lambda rng: hscale_case(rng, gen_hist(rng, _rshape(rng)), rng.random() < 0.65)),
+    (2, lambda rng: scale_get_case(rng, gen_hist(rng, _rshape(rng)))),
+    (5, lambda rng: nevents_case(rng, gen_hist(rng, _rshape(rng)), rng.random() < 0.65)),
+    (7, lambda rng: add_case(rng, _rshape(rng))),
+    (6, lambda rng: iter_case(rng, _rshape(rng))),
+    (6, lambda rng: iter_coord_case(rng, _rshape(rng))),
+    (2, lambda rng: bin_index_case(rng, _rshape(rng))),
+    (6, lambda rng: h2g_case(rng, _rshape(rng))),
+    (3, lambda rng: h2g_el_case(rng, _rshape(rng))),
+    (5, lambda rng: csv_case(rng, rng.choice(SHAPES[:13] + SHAPES))),
+    (5, _csv_text_case),
+    (8, lambda rng: graph_case(rng, rng.choice(all_namings_cached()))),
+    (6, lambda rng: graph_case(rng, tricky_naming(rng))),
+    (1, _bad_graph_case),
+    (3, _csv_graph_case),
+    (10, scale_to_case),
+    (3, scale_to_call_case),
+    (3, graph_add_case),
+    (3, mk_hist_case),
+    (1, lambda rng: hscale_case(rng, zero_integral_hist(rng), True)),
+    (1, lambda rng: nevents_case(rng, gen_hist(rng, _rshape(rng), pattern="zero"), True)),
+]
+
+
 def gen_cases(ctx):
+    """a lazy generator: first the enumerated scopes (every shape x every operation, every valid naming, the prefix /
+    extension edges of add), then a seeded random mixture of all operations"""
     rng = ctx.rng
     thorough = ctx.tier == "thorough"
-    cases = []
-    per_shape = 60 if thorough else 6
-    for rep in range(per_shape):
+    ctx.exhaustive = False
+    # every shape with every histogram operation
+    for rep in range(3 if thorough else 2):
         for shape in SHAPES:
-            hc = gen_hist(rng, shape)
-            cases.append(hscale_case(rng, hc, True))
-            cases.append(hscale_case(rng, gen_hist(rng, shape), rep % 2 == 0))
-            cases.append(scale_get_case(rng, gen_hist(rng, shape)))
-            cases.append(nevents_case(rng, gen_hist(rng, shape), True))
-            cases.append(nevents_case(rng, gen_hist(rng, shape), rep % 2 == 0))
-            cases.append(add_case(rng, shape))
-            cases.append(add_case(rng, shape))
-            cases.append(iter_case(rng, shape))
-            cases.append(iter_case(rng, shape))
-            cases.append(h2g_case(rng, shape))
-            cases.append(h2g_case(rng, shape))
-            cases.append(csv_case(rng, shape))
-            if len(shape) <= 2:
-                cases.append(csv_case(rng, shape))
-                cases.append(csv_case(rng, shape))
-                cases.append(csv_case(rng, shape))
+            yield hscale_case(rng, gen_hist(rng, shape), True)
+            yield hscale_case(rng, gen_hist(rng, shape), rep % 2 == 0)
+            yield scale_get_case(rng, gen_hist(rng, shape))
+            yield nevents_case(rng, gen_hist(rng, shape), True)
+            yield add_case(rng, shape)
+            yield iter_case(rng, shape)
+            yield iter_coord_case(rng, shape)
+            yield h2g_case(rng, shape)
+            yield h2g_el_case(rng, shape)
+            yield csv_case(rng, shape)
+            yield csv_text_case(rng, shape)
+            yield bin_index_case(rng, shape)
     # add with edges that are a proper prefix / extension of the other's: every shape x axis x both orders
     for shape in SHAPES:
         for axis in range(len(shape)):
             for order in ("ext", "pre"):
                 for extra in ((1, 2) if thorough else (1,)):
-                    cases.append(add_prefix_case(rng, shape, axis, order, extra))
-    for _ in range(200 if thorough else 10):
-        cases.append(hscale_case(rng, zero_integral_hist(rng), True))
-        cases.append(hscale_case(rng, gen_hist(rng, rng.choice(SHAPES), pattern="zero"), True))
-        cases.append(nevents_case(rng, gen_hist(rng, rng.choice(SHAPES), pattern="zero"), True))
+                    yield add_prefix_case(rng, shape, axis, order, extra)
     # graphs: every valid naming (exhaustive), each with a non-zero scale and a rescale
     for names in all_namings():
         c = graph_case(rng, names, npts=rng.randint(1, 3))
@@ -770,60 +916,14 @@ def gen_cases(ctx):
             c["g"]["scale"] = "2"
             c["other"] = enc(q(rng.choice(RATIOS)) * 2)
             c["exact"] = True
-        cases.append(c)
+        yield c
     for names in BAD_NAMINGS:
         for form in ("t", "s"):
-            cases.append(graph_case(rng, names, form=form))
-    for _ in range(40000 if thorough else 800):
-        names = rng.choice(all_namings_cached())
-        cases.append(graph_case(rng, names))
-    for _ in range(30000 if thorough else 800):
-        cases.append(graph_case(rng, tricky_naming(rng)))
-    for _ in range(3000 if thorough else 80):
-        # wrong number of names, unequal lengths, no coords
-        c = graph_case(rng, rng.choice([["x", "y"], ["x", "y", "error_y"]]))
-        r = rng.random()
-        if r < 0.3:
-            c["g"]["coords"] = c["g"]["coords"][:-1]
-        elif r < 0.6:
-            c["g"]["coords"][-1] = c["g"]["coords"][-1] + ["1/1"]
-        elif r < 0.8:
-            c["g"]["coords"] = []
-        else:
-            c["g"]["names"] = None
-        cases.append(c)
-    for _ in range(15000 if thorough else 300):
-        names = rng.choice(all_namings_cached())
-        g = graph_case(rng, names)["g"]
-        cases.append({"op": "csv_graph", "g": g, "to_csv": rng.random() > 0.1, "header": rng.choice([None, "", "a b"]),
-                      "sep": rng.choice([",", ";", " "]), "row_end": rng.choice(["", " \\\\"]),
-                      "last_row_end": rng.choice(["", "\n"])})
-    for _ in range(60000 if thorough else 1200):
-        cases.append(scale_to_case(rng))
-    for _ in range(10000 if thorough else 300):
-        cases.append(graph_add_case(rng))
-    for _ in range(15000 if thorough else 300):
-        cases.append(scale_to_call_case(rng))
-    for _ in range(15000 if thorough else 300):
-        cases.append(mk_hist_case(rng))
-    if thorough:
-        for _ in range(150000):
-            shape = rng.choice(SHAPES)
-            k = rng.randrange(6)
-            if k == 0:
-                cases.append(hscale_case(rng, gen_hist(rng, shape), rng.random() < 0.6))
-            elif k == 1:
-                cases.append(nevents_case(rng, gen_hist(rng, shape), rng.random() < 0.6))
-            elif k == 2:
-                cases.append(add_case(rng, shape))
-            elif k == 3:
-                cases.append(iter_case(rng, shape))
-            elif k == 4:
-                cases.append(h2g_case(rng, shape))
-            else:
-                cases.append(csv_case(rng, shape))
-    ctx.exhaustive = False
-    return cases
+            yield graph_case(rng, names, form=form)
+    # the random mixture
+    makers = [m for w, m in MIXTURE for _ in range(w)]
+    for _ in range(360000 if thorough else 5500):
+        yield rng.choice(makers)(rng)
 
 
 def search_cases(ctx):
@@ -833,7 +933,7 @@ def search_cases(ctx):
         pass
     c = _C()
     c.tier, c.rng, c.seed = "quick", ctx.rng, ctx.seed
-    return gen_cases(c)
+    return list(gen_cases(c))
 
 
 _NAMINGS = None
@@ -1029,6 +1129,15 @@ def run_impl(case):
             res["after_err"] = graph_state(g)
         return res
 
+    if op == "graph_add" and not (isinstance(case["b"], dict) and "coords" in case["b"]):
+        a = build_graph(case["a"])
+        b = 5 if case["b"] == "other" else build_hist(case["b"]["hist"])
+        try:
+            c = a + b
+        except Exception as ex:
+            return _exc(ex)
+        return {"g": "not a graph: " + type(c).__name__}
+
     if op == "graph_add":
         a, b = build_graph(case["a"]), build_graph(case["b"])
         sa, sb = graph_state(a), graph_state(b)
@@ -1043,12 +1152,14 @@ def run_impl(case):
         res["same"] = graph_state(a) == sa and graph_state(b) == sb
         return res
 
-    if op in ("csv", "csv_graph"):
+    if op in ("csv", "csv_graph", "csv_text"):
         el_kw = {"separator": case["sep"], "header": case["header"], "row_end": case["row_end"],
                  "last_row_end": case["last_row_end"]}
-        if op == "csv":
+        if op in ("csv", "csv_text"):
             data = build_hist(case["h"])
             el_kw["duplicate_last_bin"] = case["dup"]
+            if case.get("data") == "other":
+                data = rng_free_object()
         else:
             try:
                 data = build_graph(case["g"])
@@ -1078,8 +1189,76 @@ def run_impl(case):
         res = {"text": text, "ctx": _canon_ctx(octx)}
         return res
 
+    if op == "iter_coord":
+        h = build_hist(case["h"])
+        co = case["coord"]
+        if "single" in co:
+            cr = tuple(pynum(x, "float") for x in co["single"])
+        else:
+            cr = tuple(tuple(pynum(x, "float") for x in pr) for pr in co["many"])
+        ranges = ((None, None),) * h.dim if case["ranges_given"] else None
+        try:
+            cells = list(hf.iter_cells(h, ranges=ranges, coord_ranges=cr))
+        except Exception as ex:
+            return _exc(ex)
+        return {"cells": [[[[enc(lo), enc(hi)] for lo, hi in c.edges], enc_nested(c.bin), list(c.index)] for c in cells]}
+
+    if op in ("bin_edges", "bin_on_index"):
+        h = build_hist(case["h"])
+        ix = case["index"]
+        index = ix if isinstance(ix, int) else tuple(ix)
+        try:
+            if op == "bin_edges":
+                r = hf.get_bin_edges(index, h.edges)
+                if isinstance(r, tuple):
+                    return {"pair": [enc(r[0]), enc(r[1])]}
+                return {"pairs": [[enc(lo), enc(hi)] for lo, hi in r]}
+            return {"r": enc_nested(hf.get_bin_on_index(index, h.bins))}
+        except Exception as ex:
+            return _exc(ex)
+
+    if op == "h2g_el":
+        import lena.variables
+        h = build_hist(case["h"])
+        names = case["fields"]
+        fn = ["x", "y"] if names is None else (names["s"] if "s" in names else tuple(names["t"]))
+        sc = case["scale"]
+        scale = sc if (sc is None or sc is True) else pynum(sc, "int")
+        mvn = case["mv"]
+        if mvn is None:
+            mv = None
+        elif mvn == "notvar":
+            mv = (lambda v: v)
+        else:
+            mv = lena.variables.Variable("val", _mv(mvn))
+        try:
+            el = lena.structures.HistToGraph(make_value=mv, get_coordinate=case["mode"], field_names=fn, scale=scale)
+        except Exception as ex:
+            return {"e": exc_name(ex), "phase": "init"}
+        data = h if case["is_hist"] else 7
+        ctx = {} if case["to_graph"] else {"histogram": {"to_graph": False}}
+        val = (data, ctx) if (case["ctx"] or not case["to_graph"]) else data
+        try:
+            out = list(el.run([val]))
+        except Exception as ex:
+            return {"e": exc_name(ex), "phase": "run"}
+        if len(out) != 1:
+            return {"n_out": len(out)}
+        if out[0] is val:
+            return {"unchanged": True}
+        g = out[0][0]
+        if not isinstance(g, lena.structures.graph):
+            return {"not_graph": type(g).__name__}
+        return {"g": graph_state(g), "rows": [[enc(x) for x in row] for row in g],
+                "hscale": None if h._scale is None else enc(h._scale),
+                "bins_same": enc_nested(h.bins) == map_nested(norm, case["h"]["bins"])}
+
     if op == "scale_to":
         objs = _group_objs(case["group"], case["ctx"])
+        if case["via"] == "GroupScale" and not case.get("seq", True):
+            objs_arg = iter(objs)        # not a list or tuple
+        else:
+            objs_arg = objs
         t = case["target"]
         target = {"hist": lena.structures.histogram, "graph": lena.structures.graph}.get(t)
         if target is None:
@@ -1090,8 +1269,8 @@ def run_impl(case):
                 ret = lena.flow.scale_to(target, objs, allow_zero_scale=case["az"], allow_unknown_scale=case["au"])
                 res["ret"] = ret is None
             else:
-                ret = lena.flow.GroupScale(target, allow_zero_scale=case["az"], allow_unknown_scale=case["au"])(objs)
-                res["ret"] = ret is objs
+                ret = lena.flow.GroupScale(target, allow_zero_scale=case["az"], allow_unknown_scale=case["au"])(objs_arg)
+                res["ret"] = ret is objs_arg
         except Exception as ex:
             res["e"] = exc_name(ex)
         res["group"] = [_struct_state(v) for v in objs]
@@ -1107,6 +1286,11 @@ def run_impl(case):
         return {"r": _struct_state(r), "same_obj": r[0] is d0, "pair": isinstance(r, tuple) and len(r) == 2,
                 "ctx": _canon_ctx(r[1])}
     raise ValueError(op)
+
+
+def rng_free_object():
+    """data that is neither a histogram nor has rows(): ToCSV yields it unchanged"""
+    return 3.5
 
 
 def _canon_ctx(c):
@@ -1132,7 +1316,7 @@ def parse_csv(case, text):
         if not text.endswith(last):
             return f"text does not end with last_row_end {last!r}"
         text = text[:len(text) - len(last)]
-    is_hist = case["op"] == "csv"
+    is_hist = case["op"] in ("csv", "csv_text")
     if is_hist:
         lines = text.split(row_end + "\n") if text != "" else []
     else:
@@ -1174,8 +1358,59 @@ def _model_item(it):
     return {"graph": model_graph(it["graph"])}
 
 
-def model_requests(case):
+def _spec_requests(case):
+    """requests that execute the specification vocabulary of the theorems (Model/C12Spec.lean, NArr) on this case"""
     op = case["op"]
+    if op == "iter" and well_shaped(case["h"]):
+        rg = case["ranges"]
+        return [{"op": "spec_hist", "h": model_hist(case["h"]), "ranges": rg if rg else None}]
+    if op == "hscale" and case["exact"]:
+        i = ref_integral(case["h"])
+        if i != 0:
+            return [{"op": "spec_map", "bins": case["h"]["bins"], "c": enc(q(case["other"]) / i)}]
+    if op == "add" and case["rel"] in ("same", "near"):
+        return [{"op": "spec_zip", "a": case["a"]["bins"], "b": case["b"]["bins"], "w": case["w"]}]
+    if op == "h2g" and case["mode"] in ("left", "right", "middle"):
+        return [{"op": "spec_points", "h": model_hist(case["h"]), "mode": case["mode"], "mv": case["mv"]}]
+    if op == "csv" and len(shape_of(case["h"])) <= 2:
+        axes = axes_of(case["h"])
+        dup = case["dup"] if case["ctx_dup"] is None else case["ctx_dup"]
+        if len(axes) == 1:
+            return [{"op": "spec_csv1", "xs": axes[0][:-1], "x_last": axes[0][-1], "vals": case["h"]["bins"], "dup": dup}]
+        return [{"op": "spec_csv2", "xs": axes[0][:-1], "x_last": axes[0][-1], "ys": axes[1][:-1], "y_last": axes[1][-1],
+                 "vals": case["h"]["bins"], "dup": dup}]
+    if op == "graph":
+        names = names_tuple(case["g"]["names"])
+        if names:
+            parsed = ref_parse_names(list(names))
+            coord = names[parsed[0] - 1] if parsed else names[0]
+            return [{"op": "spec_names", "coord": coord, "names": list(names)}]
+    return []
+
+
+def model_requests(case):
+    main = _main_requests(case)
+    return main + (_spec_requests(case) if main else [])
+
+
+def _main_requests(case):
+    op = case["op"]
+    if op == "iter_coord":
+        return [{"op": "iter_coord", "h": model_hist(case["h"]), "ranges_given": case["ranges_given"],
+                 "coord_ranges": case["coord"]}]
+    if op == "bin_edges":
+        return [{"op": "bin_edges", "index": case["index"], "edges": case["h"]["edges"]}]
+    if op == "bin_on_index":
+        return [{"op": "bin_on_index", "index": case["index"], "bins": case["h"]["bins"]}]
+    if op == "csv_text":
+        if case.get("data") == "other":
+            return []
+        return [{"op": "csv_text", "h": model_hist(case["h"]), "to_csv": case["to_csv"], "ctx_dup": case["ctx_dup"],
+                 "dup": case["dup"], "sep": case["sep"], "header": case["header"], "row_end": case["row_end"],
+                 "last_row_end": case["last_row_end"]}]
+    if op == "h2g_el":
+        return [{"op": "h2g_el", "mv": case["mv"], "mode": case["mode"], "fields": case["fields"], "scale": case["scale"],
+                 "is_hist": case["is_hist"], "h": model_hist(case["h"]), "to_graph": case["to_graph"]}]
     if op == "mk_hist":
         return [{"op": "mk_hist", "edges": case["edges"], "bins": case["bins"], "init": case["init"]}]
     if op == "hscale":
@@ -1201,6 +1436,9 @@ def model_requests(case):
     if op == "graph":
         return [{"op": "graph", "g": model_graph(case["g"]), "other": case["other"] if case["exact"] else None}]
     if op == "graph_add":
+        b = case["b"]
+        if not (isinstance(b, dict) and "coords" in b):
+            return [{"op": "graph_add_any", "a": model_graph(case["a"]), "b": _model_item(b)}]
         return [{"op": "graph_add", "a": model_graph(case["a"]), "b": model_graph(case["b"])}]
     if op == "csv":
         return [{"op": "csv", "h": model_hist(case["h"]), "to_csv": case["to_csv"], "ctx_dup": case["ctx_dup"],
@@ -1208,6 +1446,9 @@ def model_requests(case):
     if op == "csv_graph":
         return [{"op": "csv_graph", "g": model_graph(case["g"]), "to_csv": case["to_csv"]}]
     if op == "scale_to":
+        if case["via"] == "GroupScale":
+            return [{"op": "group_scale", "seq": case.get("seq", True), "target": case["target"],
+                     "group": [_model_item(i) for i in case["group"]], "az": case["az"], "au": case["au"]}]
         return [{"op": "scale_to", "target": case["target"], "group": [_model_item(i) for i in case["group"]],
                  "az": case["az"], "au": case["au"]}]
     if op == "scale_to_call":
@@ -1232,7 +1473,116 @@ def _norm_rows(rows):
     return [[_nq(x) for x in r] for r in rows]
 
 
+def _compare_spec(case, sp):
+    """the specification vocabulary executed by the driver against Python reference computations"""
+    op = case["op"]
+    if "err" in sp:
+        return f"model driver error (spec): {sp['err']}"
+
+    def diff(what, a, b):
+        return None if a == b else f"{op}: Lean {what} = {jdump(a)[:300]} but the Python reference gives {jdump(b)[:300]}"
+
+    if op == "iter":
+        hc = case["h"]
+        ref = ref_cells(hc)
+        dims = shape_of(hc)
+        axes_ok = all(len(ax) >= 2 for ax in axes_of(hc))
+        d = (diff("Hist.WF (wfB)", sp["wf"], True) or
+             diff("indexProd", sp["index_prod"], [list(i) for i in itertools.product(*[range(n) for n in dims])]) or
+             diff("cellEdgesRef", [[[_nq(x) for x in p] for p in c["edges"]] for c in sp["cells"]],
+                  [[[enc(lo), enc(hi)] for lo, hi in ed] for _, _, ed in ref]) or
+             diff("InRange (inRangeB)", [c["in_range"] for c in sp["cells"]], [True] * len(ref)) or
+             diff("cellRow", [[_nq(x) for x in c["row"]] for c in sp["cells"]],
+                  [[enc(lo) for lo, _ in ed] + [enc(v)] for _, v, ed in ref]) or
+             diff("Edges.NonEmptyAxes", sp["nonempty_axes"], True) or
+             diff("Hist.Valid (validB)", sp["valid"], axes_ok))
+        if d:
+            return d
+        rg = case["ranges"]
+        if rg:
+            valid = len(rg) == len(dims) and all((lo is None or lo >= 0) and (up is None or up <= n)
+                                                 for (lo, up), n in zip(rg, dims))
+            d = diff("ValidRanges (validRangesB)", sp["valid_ranges"], valid)
+            if d:
+                return d
+            if len(rg) == len(dims):
+                sel = [list(i) for i, _, _ in ref
+                       if all((0 if lo is None else lo) <= k < (n if up is None else up)
+                              for k, (lo, up), n in zip(i, rg, dims))]
+                return diff("selAll/rangePred selection", sp["selected"], sel)
+        return None
+    if op == "hscale":
+        c = q(case["other"]) / ref_integral(case["h"])
+        flat = [q(v) for v in flat_nested(case["h"]["bins"])]
+        return (diff("NArr.map", map_nested(_nq, sp["map"]), map_nested(lambda v: enc(q(v) * c), case["h"]["bins"])) or
+                diff("NArr.values", [_nq(v) for v in sp["values"]], [enc(v) for v in flat]) or
+                diff("sumQ", _nq(sp["sum"]), enc(sum(flat))))
+    if op == "add":
+        a, b, w = case["a"], case["b"], q(case["w"])
+        want = [[list(i), enc(va + w * vb)] for (i, va, _), (_, vb, _) in
+                zip(ref_cells(a), ref_cells(dict(b, edges=a["edges"])))]
+        cnt = iter(want)
+        zipped = map_nested(lambda _: next(cnt)[1], a["bins"])
+        return (diff("NArr.zipWith", map_nested(_nq, sp["zip"]), zipped) or
+                diff("NArr.get?", [[i, _nq(v)] for i, v in sp["get"]], want))
+    if op == "h2g":
+        return diff("pointOf", _norm_rows(sp["points"]), _ref_points(case))
+    if op == "csv":
+        hc = case["h"]
+        return (diff("zipWith/rowsFor rows", _norm_rows(sp["rows"]), [[enc(x) for x in r] for r in _ref_csv_rows(case)]) or
+                diff("bins1d/bins2d", map_nested(_nq, sp["bins"]), map_nested(norm, hc["bins"])))
+    if op == "graph":
+        names = names_tuple(case["g"]["names"])
+        parsed = ref_parse_names(list(names))
+        coord = names[parsed[0] - 1] if parsed else names[0]
+        want = [[n.startswith("error_"),
+                 n.startswith("error_") and (n[6:] == coord or n[6:].startswith(coord + "_"))] for n in names]
+        return diff("isErrField / ErrorFieldOf (errorFieldOfB)", sp["r"], want)
+    return None
+
+
+def _ref_points(case):
+    hc, mode, mv = case["h"], case["mode"], case["mv"]
+    want = []
+    for _, v, ed in ref_cells(hc):
+        if mode == "left":
+            c = [lo for lo, hi in ed]
+        elif mode == "right":
+            c = [hi for lo, hi in ed]
+        else:
+            c = [(lo + hi) / 2 for lo, hi in ed]
+        vals = {None: [v], "double": [2 * v], "pair": [v, v / 2], "triple": [v, v / 2, v / 4]}[mv]
+        want.append([enc(x) for x in c + vals])
+    return want
+
+
+def _ref_csv_rows(case):
+    hc = case["h"]
+    dims = shape_of(hc)
+    dup = case["dup"] if case["ctx_dup"] is None else case["ctx_dup"]
+    axes = [[q(x) for x in ax] for ax in axes_of(hc)]
+    d = 1 if dup else 0
+    want = []
+    if len(dims) == 1:
+        b = [q(x) for x in hc["bins"]]
+        for i in range(dims[0] + d):
+            want.append([axes[0][i], b[min(i, dims[0] - 1)]])
+    else:
+        b = [[q(x) for x in r] for r in hc["bins"]]
+        for i in range(dims[0] + d):
+            for j in range(dims[1] + d):
+                want.append([axes[0][i], axes[1][j], b[min(i, dims[0] - 1)][min(j, dims[1] - 1)]])
+    return want
+
+
 def compare(case, res, replies):
+    msg = _compare_main(case, res, replies)
+    if msg is None and len(replies) > 1:
+        msg = _compare_spec(case, replies[1])
+    return msg
+
+
+def _compare_main(case, res, replies):
     op = case["op"]
     m = replies[0]
     if "err" in m:
@@ -1241,6 +1591,33 @@ def compare(case, res, replies):
     def diff(what, a, b):
         return None if a == b else f"{op}: {what}: impl {jdump(a)[:300]} vs model {jdump(b)[:300]}"
 
+    if op == "iter_coord":
+        if "e" in res or "e" in m:
+            return diff("exception", res.get("e"), m.get("e"))
+        nc = lambda l: [[[[_nq(x) for x in p] for p in ed], map_nested(_nq, c), i] for ed, c, i in l]
+        return diff("cells", nc(res["cells"]), nc(m["cells"]))
+    if op in ("bin_edges", "bin_on_index"):
+        if "e" in res or "e" in m:
+            return diff("exception", res.get("e"), m.get("e"))
+        nn = lambda r: {k: map_nested(_nq, v) for k, v in r.items()}
+        return diff("result", nn(res), nn(m))
+    if op == "csv_text":
+        if "e" in res or "e" in m:
+            return diff("exception", res.get("e"), m.get("e"))
+        if res.get("unchanged") or m.get("unchanged"):
+            return diff("value yielded unchanged", bool(res.get("unchanged")), bool(m.get("unchanged")))
+        return diff("CSV text", res.get("text"), m.get("text"))
+    if op == "h2g_el":
+        if "e" in res or "e" in m:
+            return diff("exception", [res.get("e"), res.get("phase")], [m.get("e"), m.get("phase")])
+        if res.get("unchanged") or m.get("unchanged"):
+            return diff("value yielded unchanged", bool(res.get("unchanged")), bool(m.get("unchanged")))
+        if "g" not in res:
+            return f"h2g_el: impl {res}"
+        return (diff("graph", norm_graph(res["g"]), norm_graph(m["g"])) or
+                diff("rows", _norm_rows(res["rows"]), _norm_rows(m["rows"])) or
+                diff("hist._scale", None if res["hscale"] is None else _nq(res["hscale"]),
+                     None if m["hscale"] is None else _nq(m["hscale"])))
     if op == "mk_hist":
         if "e" in res or "e" in m:
             return diff("exception", res.get("e"), m.get("e"))
@@ -1315,6 +1692,8 @@ def compare(case, res, replies):
     if op == "graph_add":
         if "e" in res or "e" in m:
             return diff("exception", res.get("e"), m.get("e"))
+        if isinstance(res["g"], str):
+            return f"graph_add: impl {res['g']} vs model {jdump(m)[:200]}"
         return diff("sum", norm_graph(res["g"]), norm_graph(m["g"])) or \
             diff("rows", _norm_rows(res["rows"]), _norm_rows(m["rows"]))
     if op in ("csv", "csv_graph"):
@@ -1394,6 +1773,62 @@ def oracle(case, res):
 
     if op == "mk_hist":
         return None      # construction is C06's subject; here only the correspondence uses it
+
+    if op == "iter_coord":
+        # the statement: whatever cells iter_cells selects, they agree with iter_bins on content, index and edges,
+        # and come in the order of iter_bins (which cells coord_ranges selects is not part of C12, see notes)
+        hc = case["h"]
+        if case["ranges_given"]:
+            return None if res.get("e") == "LenaTypeError" else \
+                f"iter_cells with both ranges and coord_ranges must raise LenaTypeError, got {str(res)[:200]}"
+        co = case["coord"]
+        n = 1 if "single" in co else len(co["many"])
+        if n != len(shape_of(hc)):
+            return None
+        if "e" in res:
+            return f"iter_cells(coord_ranges={co}) raised {res['e']}"
+        ref = {tuple(i): (v, ed) for i, v, ed in ref_cells(hc)}
+        order = [tuple(i) for i, _, _ in ref_cells(hc)]
+        pos = {i: k for k, i in enumerate(order)}
+        last = -1
+        for ed, c, i in res["cells"]:
+            i = tuple(i)
+            if i not in ref:
+                return f"iter_cells(coord_ranges) yields a cell with index {list(i)} that iter_bins does not have"
+            v, red = ref[i]
+            if not is_num(c) or q(c) != v or [[_nq(x) for x in p_] for p_ in ed] != [[enc(lo), enc(hi)] for lo, hi in red]:
+                return f"iter_cells(coord_ranges) cell {list(i)}: content {c}, edges {ed}; iter_bins/edges give {v}, {red}"
+            if pos[i] <= last:
+                return f"iter_cells(coord_ranges) yields cell {list(i)} out of the order of iter_bins (or twice)"
+            last = pos[i]
+        return None
+
+    if op in ("bin_edges", "bin_on_index"):
+        hc = case["h"]
+        ix = case["index"]
+        dims = shape_of(hc)
+        idx = [ix] if isinstance(ix, int) else list(ix)
+        if len(idx) != len(dims) or any(k >= n for k, n in zip(idx, dims)) or (isinstance(ix, int) and op == "bin_edges" and len(dims) > 1):
+            return None
+        cell = {tuple(i): (v, ed) for i, v, ed in ref_cells(hc)}[tuple(idx)]
+        if "e" in res:
+            return f"{op}({ix}) raised {res['e']}"
+        if op == "bin_on_index":
+            return None if is_num(res["r"]) and q(res["r"]) == cell[0] else f"get_bin_on_index({ix}) = {res['r']}, the cell holds {cell[0]}"
+        got = [res["pair"]] if "pair" in res else res["pairs"]
+        want = [[enc(lo), enc(hi)] for lo, hi in cell[1]]
+        return None if [[_nq(x) for x in p_] for p_ in got] == want else f"get_bin_edges({ix}) = {got}, the cell has edges {want}"
+
+    if op == "h2g_el":
+        if case["mv"] == "notvar":
+            return None if (res.get("e"), res.get("phase")) == ("LenaTypeError", "init") else \
+                f"HistToGraph(make_value=<function>) must raise LenaTypeError at construction, got {str(res)[:200]}"
+        if case["mode"] not in ("left", "right", "middle"):
+            return None if (res.get("e"), res.get("phase")) == ("LenaValueError", "init") else \
+                f"HistToGraph(get_coordinate={case['mode']!r}) must raise LenaValueError at construction, got {str(res)[:200]}"
+        if not case["is_hist"] or not case["to_graph"]:
+            return None if res.get("unchanged") else f"HistToGraph must pass the value unchanged, got {str(res)[:200]}"
+        return oracle(dict(case, op="h2g"), res)
 
     if op == "hscale":
         hc, exact = case["h"], case["exact"]
@@ -1609,6 +2044,9 @@ def oracle(case, res):
             return "scale(other) changed the field names or the dimension"
         return None
 
+    if op == "graph_add" and not (isinstance(case["b"], dict) and "coords" in case["b"]):
+        return None if "e" in res else f"graph + non-graph returned {res}"
+
     if op == "graph_add":
         a, b = case["a"], case["b"]
         if not res["same"]:
@@ -1630,6 +2068,32 @@ def oracle(case, res):
         wsc = None if (sa_ is None or sb_ is None) else q(sa_) + q(sb_)
         if (g["scale"] is None) != (wsc is None) or (wsc is not None and q(g["scale"]) != wsc):
             return f"scale of the sum is {g['scale']}, expected {wsc}"
+        return None
+
+    if op == "csv_text":
+        hc = case["h"]
+        dims = shape_of(hc)
+        if case.get("lists") and case["to_csv"] and case.get("data") != "other":
+            return None if res.get("e") == "LenaTypeError" else \
+                f"hist1d_to_csv with bins that are lists must raise LenaTypeError, got {str(res)[:200]}"
+        if "e" in res:
+            return f"ToCSV raised {res['e']}"
+        if not case["to_csv"] or len(dims) > 2 or case.get("data") == "other":
+            return None if res.get("unchanged") else f"the value must be yielded unchanged, got {str(res)[:200]}"
+        if "text" not in res:
+            return f"ToCSV did not produce text: {res}"
+        pr = parse_csv(case, res["text"])
+        if isinstance(pr, str):
+            return pr
+        want = _ref_csv_rows(case)
+        rows = pr[1]
+        if len(rows) != len(want) or any(len(r) != len(w) for r, w in zip(rows, want)):
+            return f"CSV text has {len(rows)} rows, expected {len(want)} (one per cell plus the duplicated last edges)"
+        for r, w in zip(rows, want):
+            for x, y in zip(r, w):
+                # "parse back to the edges and contents within the printed precision" (six decimals)
+                if abs(x - y) > F(1, 2000000):
+                    return f"CSV row {[str(v) for v in r]} does not parse back to {[str(v) for v in w]} within 0.5e-6"
         return None
 
     if op == "csv":
@@ -1755,6 +2219,11 @@ def _unchanged_item(it, after):
 
 def _oracle_scale_to(case, res):
     group, t = case["group"], case["target"]
+    if case["via"] == "GroupScale" and not case.get("seq", True):
+        if res["e"] != "LenaValueError":
+            return f"GroupScale on a group that is not a list or tuple must raise LenaValueError, got {res['e']}"
+        return None if all(_unchanged_item(i, a) for i, a in zip(group, res["group"])) else \
+            "GroupScale changed a group it rejected"
     if t in ("hist", "graph"):
         cands = [it for it in group if it != "other" and t in it]
         if len(cands) != 1:
@@ -1802,12 +2271,13 @@ def nontrivial(case, res):
     if isinstance(res, dict) and ("e" in res and res["e"]):
         return True
     op = case["op"]
-    if op in ("hscale", "nevents", "iter", "h2g", "csv", "scale_get"):
+    if op in ("hscale", "nevents", "iter", "h2g", "csv", "scale_get", "iter_coord", "csv_text", "h2g_el", "bin_edges",
+              "bin_on_index"):
         return len(list(flat_nested(case["h"]["bins"]))) >= 2 and not res.get("unchanged", False)
     if op == "add":
         return len(list(flat_nested(case["a"]["bins"]))) >= 2
     if op == "graph_add":
-        return len(case["a"]["coords"][0]) >= 2
+        return bool(case["a"]["coords"]) and len(case["a"]["coords"][0]) >= 2
     if op in ("graph", "csv_graph"):
         g = case["g"]
         return bool(g["coords"]) and len(g["coords"][0]) >= 2 and not res.get("unchanged", False)
@@ -1847,6 +2317,12 @@ def classify(case, res):
         out.append("graph:" + ("rescaled" if "e" not in res["scaled"] else "scale raises " + res["scaled"]["e"]))
     if op == "graph_add":
         out.append("graph_add:" + ("ok" if "g" in res else res.get("e", "?")))
+    if op == "iter_coord" and "cells" in res:
+        out.append("iter_coord:" + ("empty" if not res["cells"] else "cells"))
+    if op == "csv_text":
+        out.append("csv_text:" + ("unchanged" if res.get("unchanged") else "text"))
+    if op == "h2g_el":
+        out.append("h2g_el:" + ("unchanged" if res.get("unchanged") else ("graph" if "g" in res else "raises")))
     if op == "csv":
         out.append("csv:" + ("unchanged" if res.get("unchanged") else f"dup={case['dup']}/ctx={case['ctx_dup']}"))
     if op == "scale_to":
